@@ -3,7 +3,8 @@ From Verif Require Import Base Dispatch DispatchVM DispatchPoly DispatchTorch Di
   DispatchHooks DispatchAllowlist DispatchMLNest DispatchEffects
   DispatchCli
   DispatchInject
-  DispatchLoader.
+  DispatchLoader
+  DispatchConst.
 Import ListNotations.
 Open Scope string_scope.
 
@@ -13,7 +14,8 @@ Definition handlers : list (string -> list sexp -> option string) :=
    handle_hooks; handle_allow; handle_mlnest; handle_effects;
    handle_cli;
    handle_inject;
-   handle_loader].
+   handle_loader;
+   handle_const].
 
 Fixpoint first_some (hs : list (string -> list sexp -> option string)) (cmd : string)
          (args : list sexp) : option string :=
